@@ -337,8 +337,16 @@ func (r *Run) Merge(path, prefix string) {
 	for k, n := range res.ViolKeys {
 		r.violKeys[prefix+k] += n
 	}
+	have := map[string]int{}
+	for _, v := range r.viol {
+		have[v.Key]++
+	}
 	for _, v := range res.Viol {
 		v.Key = prefix + v.Key
+		if have[v.Key] >= 3 {
+			continue
+		}
+		have[v.Key]++
 		r.viol = append(r.viol, v)
 	}
 	for _, k := range res.Nontrivial {
@@ -353,4 +361,16 @@ func (r *Run) Merge(path, prefix string) {
 		r.caps = append(r.caps, c)
 		r.Exhaustive = false
 	}
+}
+
+// ---- sharding over worker sub-processes (each worker is this same binary)
+
+// Shard returns this process's shard index and count; worker is false in the parent.
+func Shard() (i, n int, worker bool) {
+	s := os.Getenv("VERIF_SHARD")
+	if s == "" {
+		return 0, 1, false
+	}
+	fmt.Sscanf(s, "%d/%d", &i, &n)
+	return i, n, true
 }
